@@ -214,14 +214,16 @@ def make_history(base, cfg, r, n_commits=None, kind=None):
                 # the same transaction changes rows of a one-page table (its root page is the only page rewritten):
                 # of the base table when it is still small, and of a table created earlier in the log
                 ins(1)
-                for dt in [t for t in tables if t.startswith("d")][:1]:
+                live = {x[0] for x in con.execute("SELECT name FROM sqlite_master WHERE type='table'")}
+                for dt in [t for t in tables if t.startswith("d") and t in live][:1]:
                     con.execute(f"INSERT INTO {dt} VALUES (?, ?)", (k + 100, f"with-ddl-{k}"))
                     con.execute(f"UPDATE {dt} SET b = 'changed-with-ddl' WHERE a = 1")
             elif step == 2:
                 con.execute("ALTER TABLE t0 ADD COLUMN added%d TEXT" % k)
                 tables["t0"] = (tables["t0"][0] + ["added%d" % k], alias)
             else:
-                victims = [t for t in tables if t.startswith("d")]
+                live = {x[0] for x in con.execute("SELECT name FROM sqlite_master WHERE type='table'")}
+                victims = [t for t in tables if t.startswith("d") and t in live]
                 if victims:
                     con.execute(f"DROP TABLE {victims[0]}")
                 else:
